@@ -45,7 +45,7 @@ SEQ_RULE = ("S-mode: seeded generator draws a cache configuration and a history 
 
 COMMON_ASSUMPTIONS = [
     "the reference model encodes the intended semantics as stated by the properties; operations on the exact instant of expiry are not judged",
-    "the harness clock only moves between operations (S-mode); sweeps are awaited through the SweepCompleted counter, never by sleeping",
+    "the harness clock moves between operations and, in some TTL upserts, once between two readings of the calling thread (S-mode); sweeps are awaited through the SweepCompleted counter, never by sleeping",
 ]
 
 
@@ -56,7 +56,35 @@ CONC_RULE = ("C-mode: N client threads (2-16) on 1-8 keys against one real cache
              "the contended situation the property is about (see observed.*).")
 
 
+# what the later rounds of seeded changes added to each plan (appended to the explanation that the evidence carries)
+ADDENDA = {
+    "C01": "One shard of admission decisions (comp c06, a few of them among 1500 residents) runs under C01: an accepted put must leave the total within the limit.",
+    "C02": "Iterators are also interrupted (an acknowledged write or a clock movement between two items: every next() is a read of its own), consumed through nth(), and run over 65-200 positions with repeats.",
+    "C03": "A sixth of the histories use weights around 2^34; every second cache is configured through the public Config fields after build().",
+    "C04": "'release' also issues two deletes behind a held worker (no acknowledgement may claim 'accepted' or 'does not exist' while the key is still stored and charged); 'fanout' deletes thousands of keys while the sweeper evicts them.",
+    "C05": "'fanout': thousands of distinct keys put at the same moment (ids pairwise distinct, each charged, total = sum); 'held-client' pipelines weight updates behind a held worker.",
+    "C06": "Capacity hints 1-16 with more victims than the hint; one decision in 150 among 1500 residents; evicting must not stop while victims remain; 'estimate' (readers + a storm of never-read keys) must not evict a resident with recorded hits; a refused put stores nothing.",
+    "C07": "'fanout' (every absent-reading key can be put again after full sweep cycles), 'held-ref', 'release', the expired-key sweep race followed to the point where the extended TTL has passed, and racing puts that each weigh the whole cache.",
+    "C08": "The custom weight function charges its own TTL surcharge; builder setters are called in varying order; the clock may move inside a TTL upsert.",
+    "C10": "'fanout' bursts (over a thousand keys due in one sweep of one shard), 'slow-tick' (2-3 s ticks), 'held-ref' (a reader keeps reference guards while a key of the shard expires), revival upserts of expired keys, the sweeper holding its shard for 150 ms.",
+    "C11": "Every fourth burst runs in a cache so small that the puts evict each other, with reader threads; 'drop-backlog' drops the last handle with writes still queued; the shutdown scenario runs too; thorough tier: a 12 s stall behind a full queue and 62 s without a write.",
+    "C12": "'c12-busy': a long-lived completer and poller in a tight loop (300 000 acknowledgements per shard); the mixed clients also await writes issued from inside map_get closures.",
+    "C13": "Shutdown is also called from inside mapping functions; sequential histories whose command worker died end with shutdown(): it returns and every read is absent.",
+    "C14": "Whole ageing windows of never-seen hashes; 70 000 first accesses in one window of 200 000 counters; every second shard runs without a logger; thorough tier: an estimate must survive 62 quiet seconds.",
+    "C15": "At quiescence the sketch's position inside its ageing window must equal (records handed over) mod counters; pools up to 1024 buffers and buffers up to 1000 records.",
+    "C17": "The stress workload of C18 runs here too (a wedged worker no longer completes writes); sub-millisecond sweeper ticks; single-counter sketches.",
+    "C18": "One lock-holding site is stretched a few dozen times per case; clients call back into the cache from map_get closures, from the mapping iterator's function and between iterator items; acknowledgements are pre-polled by another task; the shutdown scenario runs too.",
+}
+
+
 def plan(prop, tier, seed):
+    out = _plan(prop, tier, seed)
+    if out is not None and prop in ADDENDA:
+        out["explanation"] = out["explanation"] + " Added after seeded changes were missed: " + ADDENDA[prop]
+    return out
+
+
+def _plan(prop, tier, seed):
     quick = tier != "thorough"
     if prop in SEQ_ONLY:
         info = SEQ_ONLY[prop]
@@ -353,16 +381,21 @@ SEQ_ONLY = {
         "explanation": "TTL alphabet {0, 1 ns, 1 s - 1 ns, 1 s, shards s, 1 h, 2^32 s, u32::MAX s, random}, clock jumps landing 1 ns before / 1 ns after / far "
                        "after a deadline, TTL add/change/remove followed by jumps across the old and new deadline, sweeper at 1 ms or never (1 h tick), "
                        "2-256 shards; every read variant must serve the value strictly before the deadline and never after it. C-mode adds expiry under concurrency: clients record the "
-                       "harness clock around every call while an advancer thread moves it; a read that began after (clock at the write's acknowledgement + ttl) must not return that value.",
-        "require": ["reads_before_deadline", "reads_after_deadline", "deadlines_crossed", "reads_of_values_with_a_known_deadline", "ttl_changes_made_while_the_sweeper_held_the_shard"],
+                       "harness clock around every call while an advancer thread moves it; a read that began after (clock at the write's acknowledgement + ttl) must not return that value. The clock is also moved INSIDE a TTL upsert (between two readings of "
+                       "the calling thread: any reading is accepted as now, store and sweeper index must agree), exactly onto a deadline (reads and sweeps must give one answer about that "
+                       "instant), and past the deadline of a key that a multi-key iterator has not yielded yet. 'slow-tick': sweeper ticks of 2 and 3 s of real time with deadlines in the "
+                       "current, the next and a later second.",
+        "require": ["reads_before_deadline", "reads_after_deadline", "deadlines_crossed", "reads_of_values_with_a_known_deadline", "ttl_changes_made_while_the_sweeper_held_the_shard", "slow_tick_cases_completed", "clock_moved_between_two_readings_inside_an_upsert"],
         "extra_shards": _c09_extra,
     },
     "C16": {
         "explanation": "After every step of S-mode histories (no-pressure and pressure, all-hit and all-miss prefixes, weight decreases through upserts, "
                        "evictions, sweeps) the statistics are compared with what the harness issued and with the snapshot: hits+misses = lookups, "
                        "added-deleted = held, weight added-removed = used, rejected = admission refusals, hit ratio = hits/lookups. The same identities are evaluated at the quiescent "
-                       "point of concurrent C-mode runs (2-16 threads bumping the counters at once), against the lookups and refusals the clients recorded.",
-        "require": ["stats_checks", "critical:all-hit-prefix", "critical:all-miss-prefix", "concurrent_stats_checks"],
+                       "point of concurrent C-mode runs (2-16 threads bumping the counters at once), against the lookups and refusals the clients recorded. 'ack-stats': one client polls each acknowledgement in a tight loop and reads the counters the moment it is Ready "
+                       "(nothing is in flight then): KeysRejected / KeysAdded / KeysDeleted / the weight counters must already be exact. 'fanout': thousands of distinct keys put at the same "
+                       "moment, KeysAdded = held afterwards, KeysAdded = KeysDeleted once everything is gone.",
+        "require": ["stats_checks", "critical:all-hit-prefix", "critical:all-miss-prefix", "concurrent_stats_checks", "counters_read_the_moment_an_acknowledgement_resolved"],
         "extra_shards": _c16_extra,
     },
     "C17": {
